@@ -34,7 +34,7 @@ def sym_changing_handler(vc, name='h'):
         requires_finalizer=None, field_needs_change=None, old=None, new=None)
 
 
-@harness('R1', targets='kopf._core.intents.registries.ChangingRegistry.iter_handlers', props=['C05', 'C14', 'C15'],
+@harness('R1', targets='kopf._core.intents.registries.ChangingRegistry.iter_handlers', props=['C05', 'C14', 'C15', 'C02', 'C03', 'C04', 'C06', 'C11'],
          clauses=['selection', 'frame'], canaries=['canary.yields_all'])
 def R1(vc):
     """
@@ -165,8 +165,8 @@ class StubState:
     def purge(self, body, patch, storage, handlers): self.vc.emit('purge', self, body, patch, storage, handlers)
 
 
-@harness('H1', targets='kopf._core.reactor.processing.process_changing_cause', props=['C02', 'C03', 'C05', 'C08', 'C14', 'C13'],
-         prop_clauses={'C13': ['flag_only_set']},        # C13 "no handler executed twice because of the pause": the resume-once flag
+@harness('H1', targets='kopf._core.reactor.processing.process_changing_cause', props=['C02', 'C03', 'C05', 'C08', 'C14', 'C13', 'C11', 'C06'],
+         prop_clauses={'C13': ['flag_only_set'], 'C11': ['flag_only_set', 'closure_iff_done_or_skip', 'store_before_purge', 'executes_selected_with_state'], 'C06': ['closure_iff_done_or_skip', 'gate', 'executes_selected_with_state']},        # C13 "no handler executed twice because of the pause": the resume-once flag
          clauses=['gate', 'closure_iff_done_or_skip', 'store_before_purge', 'essence_is_new', 'flag_only_set',
                   'returns_delays', 'executes_selected_with_state', 'superseded_handlers_repurposed', 'results_delivered'],
          canaries=['canary.always_closes'],
@@ -338,7 +338,7 @@ def H1(vc):
 # ----------------------------------------------------------------------------------------------- R6
 @harness('R6', targets=['kopf._core.intents.registries.ResourceRegistry.iter_extra_fields',
                         'kopf._core.intents.registries.ResourceRegistry.get_extra_fields'],
-         props=['C15', 'C04'],
+         props=['C15', 'C04', 'C03', 'C05', 'C10'],
          clauses=['field_of_every_resource_handler', 'frame', 'set_of_all'], canaries=['canary.never_yields'],
          trusted=['_matches_resource by contract (Selector.check: a boolean function of handler and resource)'])
 def R6(vc):
@@ -395,7 +395,7 @@ def R6(vc):
 
 
 # ----------------------------------------------------------------------------------------------- R10m
-@harness('R10m', targets='kopf._core.intents.registries._matches_resource', props=['C15', 'C19'],
+@harness('R10m', targets='kopf._core.intents.registries._matches_resource', props=['C15', 'C19', 'C02', 'C04', 'C05', 'C06', 'C09', 'C14', 'C17', 'C18'],
          clauses=['answers_for_the_resource_at_hand', 'selectorless_matches_all'], canaries=['canary.always_matches'])
 def R10m(vc):
     """
